@@ -241,6 +241,67 @@ func (d *Do) appendParameterBeforeTypeCalculate(
 	}
 }
 
+// a receiver of union type: the method of each variant declares the parameters for
+// that variant, and a block parameter is the union of what the variants give it
+func (d *Do) unionBlockParameters(
+	p *parser.Parser,
+	receiverT base.T,
+	blockVariableCount int,
+) []base.T {
+
+	_, _, method := p.GetLastCallFrameDetails()
+
+	var candidates [][]base.T
+
+	for _, variant := range receiverT.GetVariants() {
+		methodT :=
+			base.GetMethodT(
+				receiverT.GetFrame(),
+				variant.GetObjectClass(),
+				method,
+				false,
+			)
+
+		if methodT == nil {
+			continue
+		}
+
+		var variantParameters []base.T
+
+		for _, t := range methodT.GetBlockParameters() {
+			variantParameters =
+				d.appendParameterBeforeTypeCalculate(
+					p,
+					t,
+					variant,
+					variantParameters,
+					blockVariableCount,
+				)
+		}
+
+		// surplus parameters are nil for this variant
+		for len(variantParameters) < blockVariableCount {
+			variantParameters = append(variantParameters, *base.MakeNil())
+		}
+
+		for idx, parameter := range variantParameters {
+			if len(candidates) <= idx {
+				candidates = append(candidates, []base.T{})
+			}
+
+			candidates[idx] = append(candidates[idx], parameter)
+		}
+	}
+
+	var blockParamaters []base.T
+
+	for _, ts := range candidates {
+		blockParamaters = append(blockParamaters, *base.MakeUnifiedT(ts))
+	}
+
+	return blockParamaters
+}
+
 func (d *Do) setBlockParameters(
 	p *parser.Parser,
 	ctx context.Context,
@@ -259,6 +320,12 @@ func (d *Do) setBlockParameters(
 		if methodT == nil {
 			methodT = base.GetClassMethodT(frame, class, method, false)
 		}
+	}
+
+	if methodT == nil && lastEvaluatedT.IsUnionType() {
+		lastEvaluatedT.SetBlockParamaters(
+			d.unionBlockParameters(p, lastEvaluatedT, len(blockVariables)),
+		)
 	}
 
 	if methodT != nil {
